@@ -498,3 +498,24 @@ func TestVerifC05ApplyUpdateRandom(t *testing.T) {
 		return checkApplyUpdate(c, tr)
 	})
 }
+
+// Hand-written regression cases for repaired defects (generator independent).
+func TestVerifC05Regressions(t *testing.T) {
+	clash := func(o, l, d map[string]any) func() error {
+		return func() error {
+			got, err := dynamicapply.Merge(o, l, d)
+			if err == nil {
+				return vs.Violf("C05/clash-not-reported", "desired/observed type clash silently ignored: observed=%v lastApplied=%v desired=%v result=%v", o, l, d, got)
+			}
+			return nil
+		}
+	}
+	vs.RunFixed(t, "C05", map[string]func() error{
+		"scalar-over-map":  clash(map[string]any{"f": map[string]any{}}, map[string]any{"f": "s1"}, map[string]any{"f": "s1"}),
+		"list-over-map":    clash(map[string]any{"f": map[string]any{"x": "s1"}}, nil, map[string]any{"f": []any{"s1"}}),
+		"scalar-over-list": clash(map[string]any{"f": []any{"s1"}}, nil, map[string]any{"f": "s1"}),
+		"map-over-list":    clash(map[string]any{"f": []any{"s1"}}, nil, map[string]any{"f": map[string]any{"x": "s1"}}),
+		"nested-scalar-over-map": clash(map[string]any{"n": map[string]any{"f": map[string]any{"x": int64(1)}, "keep": "k"}},
+			map[string]any{"n": map[string]any{"f": map[string]any{"x": int64(1)}}}, map[string]any{"n": map[string]any{"f": true}}),
+	})
+}
